@@ -29,7 +29,10 @@ class ImportNode(BaseNode):
             node.indent = self.indent
             node.isource = self.source
             if env.envtype!=EnvType.DOCS:
-                # the copy already holds the value; do not repeat its injection in this environment
+                # the copy already holds the value; do not repeat its injection,
+                # function call or expression in this environment
                 node.value_ref = None
+                node.value_fn = None
+                node.value_expr = None
             nodes_new.append(node)
         return nodes_new
